@@ -110,10 +110,16 @@ impl<F: FileSystem> Loader<F> {
             match entry {
                 syntax::LedgerEntry::Include(p) => {
                     let include_path: PathBuf = p.0.as_ref().into();
-                    let target: String = path
+                    // only the include itself is a pattern: the directory of the including file
+                    // is taken literally, even if its name contains `[`, `*` or `?`.
+                    let parent = path
                         .as_ref()
                         .parent()
-                        .ok_or_else(|| LoadError::RootLoadingPath(path.as_ref().to_owned()))?
+                        .ok_or_else(|| LoadError::RootLoadingPath(path.as_ref().to_owned()))?;
+                    let parent = parent.to_str().ok_or_else(|| {
+                        LoadError::InvalidUnicodePath(format!("{}", parent.display()))
+                    })?;
+                    let target: String = Path::new(&glob::Pattern::escape(parent))
                         .join(include_path)
                         .into_os_string()
                         .into_string()
